@@ -261,7 +261,7 @@ func runVideo(rep *report.Report, h265 bool) {
 	if h265 {
 		menu, name = menu265(), "h265"
 	}
-	maxLen := 2
+	maxLen := 3
 	if rep.Thorough() {
 		maxLen = 4
 	}
